@@ -10,6 +10,8 @@ from .. import terms
 ID = "C14"
 ANCHORS = 'tools.tomtom._p_values,tools.tomtom._merge_rc_results,tools.tomtom._p_value_backgrounds'.split(",")
 MIN_INSTANCES = 8
+# rule families whose findings in this module are derived by an engine (not by comparing spellings): exempt from the rewrite gate
+SEMANTIC_RULES = {"R-TERM", "LOOKUP-GUARD", "OVERLAP", "STATE"}
 EXPLANATION = (
     "LOOKUP-GUARD: the null-CDF lookup B_cdfs[nt, uint64(score-1)] is reached only on paths where score-1 >= 0 is implied by the "
     "guards (an unsigned cast of a possibly negative index wraps to a huge column) - decided in the linear-constraint domain. "
